@@ -647,6 +647,8 @@ BODIES = [
     ("PFC_save", "StringDictionaryPFC.cpp", "StringDictionaryPFC::save", 0),
     ("PFC_load", "StringDictionaryPFC.cpp", "StringDictionaryPFC::load", 0),
     ("RG_rank1", "libcds/src/bitsequence/BitSequenceRG.cpp", "BitSequenceRG::rank1", 0),
+    ("RG_select1", "libcds/src/bitsequence/BitSequenceRG.cpp", "BitSequenceRG::select1", 0),
+    ("RG_BuildRank", "libcds/src/bitsequence/BitSequenceRG.cpp", "BitSequenceRG::BuildRank", 0),
 ]
 
 
